@@ -125,8 +125,9 @@ Proof. intros H. destruct (plublk_shapes Ts As H) as (ns & S1 & S2 & S3 & SA).
 Variable chol_o : nat -> fm -> fm.
 Variable lu_o : nat -> fm -> (nat -> nat) * fm * fm.
 Variable sqrt_o : R -> R.
+Variable plu_sqrt : bool.
 Notation chol := (chol chol_o sqrt_o).
-Notation plu := (plu lu_o sqrt_o).
+Notation plu := (plu lu_o sqrt_o plu_sqrt).
 Notation dense := C11_Decomp.dense.
 
 Definition cholgood (r : dop) (e : op) := let n := fst (shape e) in
@@ -151,8 +152,8 @@ Fixpoint cok (e : op) {struct e} : Prop :=
 Fixpoint pok (e : op) {struct e} : Prop :=
   match e with
   | Ident _ => True
-  | Diag n d => forall i, (i < n)%nat -> sqrt_o (d i) * sqrt_o (d i) = d i
-  | Scal c _ => sqrt_o c * sqrt_o c = c
+  | Diag n d => plu_sqrt = true -> forall i, (i < n)%nat -> sqrt_o (d i) * sqrt_o (d i) = d i
+  | Scal c _ => plu_sqrt = true -> sqrt_o c * sqrt_o c = c
   | Kron ms => forallb is_sq ms = true /\ Forall (fun P : Prop => P) (map pok ms)
   | BDiag ms => forallb (fun mc => is_sq (fst mc)) ms = true /\ Forall (fun P : Prop => P) (map (fun mc => pok (fst mc)) ms)
   | _ => lu_spec (fst (shape e)) (dense e)
